@@ -181,6 +181,9 @@ func mayBeRetryErr(v ssa.Value, seen map[ssa.Value]bool, depth int) (bool, strin
 
 func checkC04(c *Ctx) {
 	r := c.R
+	// ---- C04.13 "reaches the covert destination exactly once and in order, and the covert's reply reaches the client
+	// likewise": the two directions of a tunnel relay through memory of their own (shared with C05.11)
+	checkPrivateRelayBuffer(c, "C04.13")
 	r.Rule("C04.1", "receive buffer is append-only and offered whole to every remaining transport", 2)
 	r.Rule("C04.2", "a transport that answers try-again / not-transport leaves the buffer untouched", 3)
 	r.Rule("C04.3", "prefix table, length thresholds, tag offsets and consumed length agree", 14)
